@@ -527,3 +527,36 @@ def check_init(case):
     state's variables, i.e. every index for Matrix inputs), both visiting orders, seed None / 0 / positive / 2^31-1 /
     negative. Non-trivial: model with a variable."""
     return _check(case, _ASPECTS)
+
+
+# ---------------------------------------------------------------------------------------------
+# arguments at the edge of the documented domain (known findings of round 4)
+# ---------------------------------------------------------------------------------------------
+def _gen_edge_args(ctx):
+    for fn in FNS:
+        spin = SPIN_FN[fn]
+        one = 1 if spin else 1
+        other = -1 if spin else 0
+        terms = {(0, 1): 1, (0,): -1}
+        yield {"fn": fn, "type": "dict", "terms": terms, "kw": {"seed": 2 ** 31, "num_anneals": 1}, "what": "seed"}
+        yield {"fn": fn, "type": "dict", "terms": terms, "kw": {"seed": 2 ** 40, "num_anneals": 2}, "what": "seed"}
+        yield {"fn": fn, "type": "dict", "terms": terms,
+               "kw": {"initial_state": {0: float(one), 1: float(other)}, "seed": 1, "num_anneals": 1}, "what": "float-state"}
+
+
+@clause("C11.edge_arguments", "C11", gen=_gen_edge_args, nontrivial=lambda c: True)
+def check_edge_args(case):
+    """'any seed': an integer seed >= 2**31; 'any initial_state': an initial state whose values are the floats
+    1.0 / -1.0 (0.0 / 1.0), which are values in {1,-1} ({0,1}). The call must return num_anneals well-formed results
+    (count, keys, domain, flag, value) like any other call."""
+    try:
+        res = _call(case)
+    except Exception as e:          # noqa
+        return Fail("anneal_%s(..., %s) raised %s: %s" % (case["fn"], ", ".join("%s=%r" % kv for kv in case["kw"].items()),
+                                                          type(e).__name__, str(e)[:120]),
+                    key="raises:" + case["what"])
+    for a in (_aspect_count, _aspect_keys, _aspect_domain, _aspect_value):
+        f = a(case, res)
+        if f is not None:
+            return f
+    return None
